@@ -33,6 +33,7 @@ def main(argv=None):
     a = ap.parse_args(argv)
     seed = int(os.environ.get("VERIF_SEED", "0"))
     sys.path.insert(0, ROOT)
+    os.environ["PYVC_TIER"] = a.tier
     if os.environ.get("PYVC_SRC"):
         # development aid: verify a scratch copy of the sources (also used natively for replay)
         sys.path.insert(0, os.environ["PYVC_SRC"])
